@@ -662,3 +662,10 @@ mod tests {
     }
 }
 
+
+#[cfg(uflow_verif)]
+impl AssemblyWindow {
+    pub fn verif_alloc(&self) -> usize {
+        self.alloc
+    }
+}
